@@ -227,7 +227,8 @@ pub struct AEv {
 }
 
 #[derive(Clone, Default)]
-pub struct ALog(Arc<Mutex<Vec<AEv>>>);
+/// (second part: a lock that stands for a shared output - every capture sink of the run takes it while it writes)
+pub struct ALog(Arc<Mutex<Vec<AEv>>>, Arc<SimMutex<()>>);
 
 impl ALog {
     pub fn log(&self, k: AK) -> u64 {
@@ -406,6 +407,7 @@ fn emit_from(no: u32, t: &TestEntry, raw: bool) -> AK {
 
 impl AnyEntrySink for CaptureSink {
     fn append_any(&self, entry: impl Entry + Send + 'static) {
+        let _out = self.log.1.lock().unwrap_or_else(|e| e.into_inner());
         detsim::yield_point();
         let t = to_test_entry(entry);
         let raw = self.no >= 100;
@@ -768,12 +770,17 @@ fn agg_main(plan: &Value, slot: Arc<Mutex<Option<AggRun>>>, log: ALog) {
                 settle(w);
                 log.log(AK::Phase("timed_flush_checked"));
             }
-            // drop the last handle
+            // drop the last handle - in half of the runs while this thread holds the lock of the shared output, which
+            // the worker's final flush is going to need (the drop must not wait for that flush)
+            let holding = mix(ju(plan.get("sched").unwrap_or(&Value::Null), "seed", 0), 0x0a7) % 2 == 0;
+            let out = log.1.clone();
+            let held = if holding { Some(out.lock().unwrap_or_else(|e| e.into_inner())) } else { None };
             match &r.target {
                 Target::Worker(m) => drop(m.lock().unwrap().take()),
                 Target::WorkerTee(m) => drop(m.lock().unwrap().take()),
                 _ => {}
             }
+            drop(held);
             log.log(AK::HandleDropped);
             for _ in 0..3 {
                 settle(w);
